@@ -8,6 +8,16 @@ use coset::cbor::value::Value;
 use coset::iana::{self, EnumI64};
 use std::collections::BTreeSet;
 
+thread_local! {
+    static HEADERS_VIA_DECODE: std::cell::Cell<u8> = const { std::cell::Cell::new(0) };
+}
+
+/// Per-run switch: build coset `Header` values by decoding the descriptor's reference encoding
+/// instead of through struct literals.
+pub fn set_headers_via_decode(mode: u8) {
+    HEADERS_VIA_DECODE.with(|c| c.set(mode));
+}
+
 #[derive(Clone, Debug, PartialEq, Eq, PartialOrd, Ord)]
 pub enum MValue {
     Int(i128),
@@ -403,7 +413,61 @@ impl MRegP {
 }
 
 impl MHeader {
+    /// The descriptor as any decoder of its reference encoding must see it, computed by the harness
+    /// alone: labels of typed fields found among the extras move into the typed fields, small
+    /// bignums (tag 2 / 3 around at most 8 bytes) become plain integers.
+    pub fn normalised(&self) -> MHeader {
+        fn fold(v: &MValue) -> MValue {
+            match v {
+                MValue::Tag(t, inner) if *t == 2 || *t == 3 => {
+                    if let MValue::Bytes(b) = &**inner {
+                        if b.len() <= 8 {
+                            let mut x: i128 = 0;
+                            for y in b {
+                                x = (x << 8) | *y as i128;
+                            }
+                            return MValue::Int(if *t == 2 { x } else { -1 - x });
+                        }
+                    }
+                    MValue::Tag(*t, Box::new(fold(inner)))
+                }
+                MValue::Tag(t, inner) => MValue::Tag(*t, Box::new(fold(inner))),
+                MValue::Array(a) => MValue::Array(a.iter().map(fold).collect()),
+                MValue::Map(m) => MValue::Map(m.iter().map(|(k, v)| (fold(k), fold(v))).collect()),
+                other => other.clone(),
+            }
+        }
+        let bytes = crate::refcbor::encode(&self.to_item());
+        let mut h = match crate::refcbor::read_exact(&bytes).ok().and_then(|i| MHeader::from_item(&i)) {
+            Some(h) => h,
+            None => self.clone(),
+        };
+        for (_, v) in h.rest.iter_mut() {
+            *v = fold(v);
+        }
+        h
+    }
+
+    /// The coset value for this descriptor.  In "decoded" mode (a per-run switch, see
+    /// `set_headers_via_decode`) the value is obtained by letting coset decode the descriptor's
+    /// reference encoding - how a relay that parses a header and reuses it in a new message gets
+    /// its `Header` - and falls back to the struct literal if coset refuses the encoding.
     pub fn to_coset(&self) -> coset::Header {
+        let mode = HEADERS_VIA_DECODE.with(|c| c.get());
+        if mode != 0 {
+            let bytes = crate::refcbor::encode(&self.to_item());
+            if let Ok(h) = <coset::Header as coset::CborSerializable>::from_slice(&bytes) {
+                // mode 2 (field-level models): only when the decoded value shows the same public
+                // content as the descriptor
+                if mode == 1 || MHeader::from_coset(&h) == *self {
+                    return h;
+                }
+            }
+        }
+        self.to_coset_literal()
+    }
+
+    pub fn to_coset_literal(&self) -> coset::Header {
         coset::Header {
             alg: self.alg.as_ref().map(regp::<iana::Algorithm>),
             crit: self.crit.iter().map(reg::<iana::HeaderParameter>).collect(),
@@ -424,6 +488,7 @@ impl MHeader {
                 .iter()
                 .map(|(l, v)| (l.to_coset(), v.to_value()))
                 .collect(),
+            ..Default::default()
         }
     }
     pub fn from_coset(h: &coset::Header) -> MHeader {
@@ -601,6 +666,7 @@ impl MSignature {
             protected: self.protected.to_coset(),
             unprotected: self.unprotected.to_coset(),
             signature: self.signature.clone(),
+            ..Default::default()
         }
     }
     pub fn from_coset(s: &coset::CoseSignature) -> MSignature {
@@ -633,6 +699,7 @@ impl MSign {
             unprotected: self.unprotected.to_coset(),
             payload: self.payload.clone(),
             signatures: self.signatures.iter().map(|s| s.to_coset()).collect(),
+            ..Default::default()
         }
     }
     pub fn from_coset(s: &coset::CoseSign) -> MSign {
@@ -660,6 +727,7 @@ impl MSign1 {
             unprotected: self.unprotected.to_coset(),
             payload: self.payload.clone(),
             signature: self.signature.clone(),
+            ..Default::default()
         }
     }
     pub fn from_coset(s: &coset::CoseSign1) -> MSign1 {
@@ -687,6 +755,7 @@ impl MRecipient {
             unprotected: self.unprotected.to_coset(),
             ciphertext: self.ciphertext.clone(),
             recipients: self.recipients.iter().map(|r| r.to_coset()).collect(),
+            ..Default::default()
         }
     }
     pub fn from_coset(r: &coset::CoseRecipient) -> MRecipient {
@@ -719,6 +788,7 @@ impl MEncrypt {
             unprotected: self.unprotected.to_coset(),
             ciphertext: self.ciphertext.clone(),
             recipients: self.recipients.iter().map(|r| r.to_coset()).collect(),
+            ..Default::default()
         }
     }
     pub fn from_coset(r: &coset::CoseEncrypt) -> MEncrypt {
@@ -745,6 +815,7 @@ impl MEncrypt0 {
             protected: self.protected.to_coset(),
             unprotected: self.unprotected.to_coset(),
             ciphertext: self.ciphertext.clone(),
+            ..Default::default()
         }
     }
     pub fn from_coset(r: &coset::CoseEncrypt0) -> MEncrypt0 {
@@ -771,6 +842,7 @@ impl MMac {
             payload: self.payload.clone(),
             tag: self.tag.clone(),
             recipients: self.recipients.iter().map(|r| r.to_coset()).collect(),
+            ..Default::default()
         }
     }
     pub fn from_coset(r: &coset::CoseMac) -> MMac {
@@ -800,6 +872,7 @@ impl MMac0 {
             unprotected: self.unprotected.to_coset(),
             payload: self.payload.clone(),
             tag: self.tag.clone(),
+            ..Default::default()
         }
     }
     pub fn from_coset(r: &coset::CoseMac0) -> MMac0 {
@@ -833,6 +906,7 @@ impl MKey {
                 .iter()
                 .map(|(l, v)| (l.to_coset(), v.to_value()))
                 .collect(),
+            ..Default::default()
         }
     }
     pub fn from_coset(k: &coset::CoseKey) -> MKey {
@@ -881,6 +955,7 @@ impl MClaims {
                 .iter()
                 .map(|(n, v)| (regp::<iana::CwtClaimName>(n), v.to_value()))
                 .collect(),
+            ..Default::default()
         }
     }
     pub fn from_coset(c: &coset::cwt::ClaimsSet) -> MClaims {
@@ -922,6 +997,7 @@ impl MPartyInfo {
             identity: self.identity.clone(),
             nonce: self.nonce.as_ref().map(|n| n.to_coset()),
             other: self.other.clone(),
+            ..Default::default()
         }
     }
     pub fn from_coset(p: &coset::PartyInfo) -> MPartyInfo {
@@ -974,6 +1050,7 @@ impl MSuppPubInfo {
             key_data_length: self.key_data_length,
             protected: self.protected.to_coset(),
             other: self.other.clone(),
+            ..Default::default()
         }
     }
     pub fn from_coset(p: &coset::SuppPubInfo) -> MSuppPubInfo {
